@@ -711,6 +711,15 @@ structure Converged (Unt : σ → κ → Prop) (fresh : σ → κ) (new : List (
   full : ∀ e, e ∈ st.old → ∃ k, (Loc.ws (normComps e.dir), k) ∈ st.fs
   state : ∀ e, e ∈ st.old → ∃ n, n ∈ new ∧ e.dir = n.dir ∧ e.digest = some n.digest
 
+theorem Converged.transfer {Unt : σ → κ → Prop} {fresh : σ → κ} {new : List (NewEntry σ)} {st st' : St σ κ}
+    (h : Converged Unt fresh new st) (h1 : st'.fs = st.fs) (h2 : st'.old = st.old)
+    (h3 : st'.wsMissing = st.wsMissing) (h4 : st'.nextAttic = st.nextAttic) : Converged Unt fresh new st' := by
+  refine ⟨by rw [h1]; exact h.contents, by rw [h1]; exact h.only,
+    ⟨by rw [h1, h2]; exact h.good.tracked, by rw [h1]; exact h.good.nodup, by rw [h1, h3]; exact h.good.missing,
+     by rw [h2]; exact h.good.inj, ?_⟩, by rw [h1, h2]; exact h.full, by rw [h2]; exact h.state⟩
+  intro n p k hm
+  rw [h1] at hm; rw [h4]; exact h.good.below n p k hm
+
 instance symmOld : Std.Symm (fun a b : OldEntry σ => normComps a.dir ≠ normComps b.dir) := ⟨fun _ _ h => h.symm⟩
 instance symmNew : Std.Symm (fun a b : NewEntry σ => normComps a.dir ≠ normComps b.dir) := ⟨fun _ _ h => h.symm⟩
 
@@ -745,7 +754,7 @@ theorem cleanInvalidate_eq (sem : ScmSem σ κ) (new : List (NewEntry σ)) (st :
 
 /-- the state a run starts the loop with (after `_constructDir` and `--clean-checkout`) -/
 def prepared (sem : ScmSem σ κ) (fl : Flags) (new : List (NewEntry σ)) (st0 : St σ κ) : St σ κ :=
-  let sta := if st0.wsMissing then { st0 with wsMissing := false, old := [], plain := [] } else st0
+  let sta := if st0.wsMissing then { st0 with wsMissing := false, old := [], plain := [], complete := false } else st0
   if fl.cleanCheckout then cleanInvalidate sem new sta else sta
 
 theorem prepared_spec (sem : ScmSem σ κ) (fl : Flags) (new : List (NewEntry σ)) (st0 : St σ κ)
@@ -791,13 +800,15 @@ theorem prepared_spec (sem : ScmSem σ κ) (fl : Flags) (new : List (NewEntry σ
 
 theorem cook_eq (sem : ScmSem σ κ) (fl : Flags) (indet : Bool) (new : List (NewEntry σ)) (st0 : St σ κ) :
     cook sem fl indet new st0 =
-      (if !st0.wsMissing && !indet && sameDirs (prepared sem fl new st0).old new then (prepared sem fl new st0, none)
+      (if (prepared sem fl new st0).complete && (!st0.wsMissing && !indet && sameDirs (prepared sem fl new st0).old new)
+       then (prepared sem fl new st0, none)
        else match loopAll sem fl.atticEnabled new (sortedOld (prepared sem fl new st0).old) (prepared sem fl new st0) [] with
         | (st1, some x) => (st1, some x)
         | (st1, none) =>
           match collision new st1 with
           | some d => (st1, some (.collides d))
-          | none => runScms sem new (emit (.setDirState (new.map (·.dir))) { st1 with old := new.map asOld })) := rfl
+          | none => markComplete (runScms sem new (emit (.setDirState (new.map (·.dir)))
+              { st1 with old := new.map asOld, complete := false }))) := rfl
 
 theorem cook_converges (hc : ScmConv sem fresh Unt)
     (hdig : ∀ (e : OldEntry σ) n, n ∈ new → e.dir = n.dir → e.digest = some n.digest →
@@ -815,11 +826,11 @@ theorem cook_converges (hc : ScmConv sem fresh Unt)
   obtain ⟨pfs, pws, pna, pold1, pold2, ppw⟩ := prepared_spec (Unt := Unt) sem fl new st0 hW
   rw [cook_eq] at hok ⊢
   generalize hstb : prepared sem fl new st0 = stb at *
-  by_cases hskip : (!st0.wsMissing && !indet && sameDirs stb.old new) = true
+  by_cases hskip : (stb.complete && (!st0.wsMissing && !indet && sameDirs stb.old new)) = true
   · -- nothing to do: deterministic and unchanged
     simp only [hskip, if_true]
     simp only [Bool.and_eq_true, Bool.not_eq_true'] at hskip
-    obtain ⟨⟨hm0, hind⟩, hsame⟩ := hskip
+    obtain ⟨_, ⟨hm0, hind⟩, hsame⟩ := hskip
     unfold sameDirs at hsame
     simp only [Bool.and_eq_true, List.all_eq_true, List.any_eq_true, beq_iff_eq] at hsame
     obtain ⟨hs1, hs2⟩ := hsame
@@ -865,7 +876,7 @@ theorem cook_converges (hc : ScmConv sem fresh Unt)
       obtain ⟨n, _, hn, hd, hdg, _⟩ := key e he
       exact ⟨n, hn, hd, hdg⟩
   · -- the checkout runs
-    have hskip' : (!st0.wsMissing && !indet && sameDirs stb.old new) = false := by simpa using hskip
+    have hskip' : (stb.complete && (!st0.wsMissing && !indet && sameDirs stb.old new)) = false := by simpa using hskip
     simp only [hskip', Bool.false_eq_true, if_false] at hok ⊢
     have hL0 : LoopInv Unt new stb [] (sortedOld stb.old) := by
       have hperm := List.mergeSort_perm stb.old
@@ -904,10 +915,15 @@ theorem cook_converges (hc : ScmConv sem fresh Unt)
             · cases he
             · exact hd
           have hR0 : RunInv Unt new fresh
-              (emit (.setDirState (new.map (·.dir))) { st1 with old := new.map asOld }) [] :=
+              (emit (.setDirState (new.map (·.dir))) { st1 with old := new.map asOld, complete := false }) [] :=
             ⟨hdone, hL.nodup, (by intro n h; cases h), hL.below⟩
           obtain ⟨_, ⟨done', hR, hall, _⟩, hold, hwm, hnil⟩ :=
             runScms_inv hc hinj hprune new _ [] (fun _ h => h) (by intro m h; cases h) hR0
+          obtain ⟨mf1, _, mf3, mf4, mf5, _⟩ := markComplete_fields (runScms sem new
+            (emit (.setDirState (new.map (·.dir))) { st1 with old := new.map asOld, complete := false }))
+          refine Converged.transfer (st := (runScms sem new
+            (emit (.setDirState (new.map (·.dir))) { st1 with old := new.map asOld, complete := false })).1)
+            ?_ mf1 mf4 mf5 mf3
           refine ⟨fun n hn => hR.got n (hall n hn), ?_, ⟨?_, hR.nodup, ?_, ?_, hR.below⟩, ?_, ?_⟩
           · intro p k hm
             obtain ⟨n, hn, hd, _⟩ := hR.ent p k hm
